@@ -19,6 +19,9 @@
 //! Driven through `gix_worktree::Stack` (`selected_attribute_matches()`/`attribute_matches()`, `at_entry()`,
 //! `matching_attributes()`) and through `gix_attributes::Search::pattern_matching_relative_path()` directly, with pattern
 //! lists pushed and popped per directory the way gix-worktree does it.
+//! For the Stack the re-used outcome is created after the first `at_entry()` (the root `.gitattributes` and `info/attributes`, and
+//! with them all macro definitions, are known then); a second re-used outcome is created right after the Stack, before any
+//! attribute file was read, as callers usually do: the two must agree (`early-outcome|...`).
 use crate::fw::{git, guard, show, Ctx, Rng};
 use bstr::ByteSlice;
 use serde_json::json;
@@ -745,6 +748,8 @@ struct Plan {
 }
 
 struct Step {
+    /// Stack only: what an outcome says that was created before the stack had read any attribute file and is re-used as well
+    early: Option<BTreeMap<String, String>>,
     reused: BTreeMap<String, String>,
     fresh: BTreeMap<String, String>,
     /// the re-used outcome was `is_done()` after this path: the search had stopped early
@@ -805,6 +810,14 @@ fn stack_sequences(sc: &Scenario, queries: &[String], plans: &[Plan], from_index
             None => stack.attribute_matches(),
         };
         let selected = plan.selection.is_some();
+        // `early` is created when callers usually do it: right after the stack. `reused` is created once the stack has read
+        // the root .gitattributes and info/attributes (all macro definitions are known then), so that a difference between
+        // `reused` and a fresh outcome can only come from the paths asked before
+        let mut early = make(&stack);
+        if let Some(&qi) = plan.order.first() {
+            let (rel, _) = query_kind(sc, &queries[qi]);
+            let _ = stack.at_entry(rel.as_bytes().as_bstr(), None).map_err(|e| format!("at_entry({rel:?}): {e}"))?;
+        }
         let mut reused = make(&stack);
         let mut steps = Vec::new();
         for &qi in &plan.order {
@@ -817,9 +830,10 @@ fn stack_sequences(sc: &Scenario, queries: &[String], plans: &[Plan], from_index
             };
             let mut fresh = make(&stack);
             let platform = stack.at_entry(rel.as_bytes().as_bstr(), mode).map_err(|e| format!("at_entry({q:?}): {e}"))?;
+            platform.matching_attributes(&mut early);
             platform.matching_attributes(&mut reused);
             platform.matching_attributes(&mut fresh);
-            steps.push(Step { reused: outcome_map(&reused, selected), fresh: outcome_map(&fresh, selected), early_done: reused.is_done() });
+            steps.push(Step { early: Some(outcome_map(&early, selected)), reused: outcome_map(&reused, selected), fresh: outcome_map(&fresh, selected), early_done: reused.is_done() });
         }
         res.push(steps);
     }
@@ -928,7 +942,7 @@ fn search_sequences(sc: &Scenario, queries: &[String], plans: &[Plan]) -> Result
             lists.matching(rel, is_dir, &mut reused);
             let mut fresh = new_outcome(&lists.collection, &plan.selection);
             lists.matching(rel, is_dir, &mut fresh);
-            steps.push(Step { reused: outcome_map(&reused, selected), fresh: outcome_map(&fresh, selected), early_done: reused.is_done() });
+            steps.push(Step { early: None, reused: outcome_map(&reused, selected), fresh: outcome_map(&fresh, selected), early_done: reused.is_done() });
         }
         res.push(steps);
     }
@@ -963,6 +977,21 @@ fn gen_order(r: &mut Rng, n: usize) -> Vec<usize> {
     order
 }
 
+/// An attribute file has `**` glued to other pattern text (`ab**`, `**x`). git cuts the wildcard-free prefix of a pattern off
+/// before it calls wildmatch, so that the `**` of `a/l**` becomes a leading one and matches across slashes; gitoxide does not
+/// (known gix-glob deviation, subject of C37). Pattern matching as such is not what oracle R judges.
+fn has_starstar_glued_to_text(sc: &Scenario) -> bool {
+    sc.attr_files.iter().any(|(_, c)| {
+        (0..c.len().saturating_sub(1)).any(|i| {
+            c[i] == b'*' && c[i + 1] == b'*' && {
+                let before = if i == 0 { b'\n' } else { c[i - 1] };
+                let after = c.get(i + 2).copied().unwrap_or(b'\n');
+                !matches!(before, b'/' | b' ' | b'\t' | b'\n' | b'"' | b'!') || !matches!(after, b'/' | b' ' | b'\t' | b'\n' | b'\r' | b'"')
+            }
+        })
+    })
+}
+
 /// judge the steps of one plan: against git (`expected`) and against the fresh outcome
 #[allow(clippy::too_many_arguments)]
 fn judge_sequence(ctx: &mut Ctx, sc: &Scenario, api: &'static str, pass: &str, queries: &[String], plan: &Plan, steps: &[Step], expected: &Table, witness_base: &serde_json::Value) {
@@ -972,6 +1001,7 @@ fn judge_sequence(ctx: &mut Ctx, sc: &Scenario, api: &'static str, pass: &str, q
     let has_macro = plan.selection.as_ref().map_or(false, |s| s.iter().any(|n| matches!(n.as_str(), "m1" | "m2" | "m3" | "binary")));
     let has_never = plan.selection.as_ref().map_or(false, |s| s.iter().any(|n| NEVER.contains(&n.as_str())));
     let nsel = plan.selection.as_ref().map_or(0, |s| s.len());
+    let glued_starstar = has_starstar_glued_to_text(sc);
     for (i, step) in steps.iter().enumerate() {
         let q = &queries[plan.order[i]];
         let git = &expected[q];
@@ -982,7 +1012,7 @@ fn judge_sequence(ctx: &mut Ctx, sc: &Scenario, api: &'static str, pass: &str, q
         // names to judge: the selection, or everything anybody reports
         let names: Vec<String> = match &plan.selection {
             Some(s) => s.clone(),
-            None => git.keys().chain(step.reused.keys()).chain(step.fresh.keys()).cloned().collect::<BTreeSet<_>>().into_iter().collect(),
+            None => git.keys().chain(step.reused.keys()).chain(step.fresh.keys()).chain(step.early.iter().flat_map(|m| m.keys())).cloned().collect::<BTreeSet<_>>().into_iter().collect(),
         };
         if !selected {
             ctx.eval();
@@ -998,11 +1028,39 @@ fn judge_sequence(ctx: &mut Ctx, sc: &Scenario, api: &'static str, pass: &str, q
                 ctx.distinct(("reuse", api, nsel, kind_of(&g), step.early_done, has_macro, has_never, i == 0, sc.icase));
             }
             ctx.count("reuse_values_compared");
+            if let Some(early) = &step.early {
+                let e = early.get(name).cloned().unwrap_or_else(|| absent.into());
+                ctx.count("early_outcome_values_compared");
+                if e != x {
+                    // two outcomes that saw the same paths in the same order; they differ in the moment of their creation only
+                    let mut w = witness_base.clone();
+                    w["selection"] = json!(plan.selection);
+                    w["query"] = json!(q);
+                    w["position_in_sequence"] = json!(i);
+                    w["attribute"] = json!(name);
+                    w["git"] = json!(g);
+                    w["outcome_created_before_first_at_entry"] = json!(e);
+                    w["outcome_created_after_first_at_entry"] = json!(x);
+                    w["pass"] = json!(pass);
+                    if std::env::var("GXV_C38_DUMP").is_ok() {
+                        eprintln!("DUMP early-outcome|{site}\t{q}\t{name}\tgit={g}\tearly={e}\tlate={x}\t{pass}");
+                    }
+                    ctx.violation(
+                        "early-outcome|stack|differs-from-outcome-created-after-root-attributes-were-read",
+                        &format!("{q:?}: attribute {name} is {e} in an Outcome created right after the Stack (before its first at_entry()), {x} in one created after the first at_entry(); git check-attr says {g} ({pass})"),
+                        w,
+                    );
+                }
+            }
             if x == g && x == f {
                 if selected && i > 0 && g != "unspecified" && step.early_done && ctx.counter("reuse_samples") < 2 {
                     ctx.count("reuse_samples");
                     ctx.sample(json!({"api": api, "selection": plan.selection, "path": q, "asked_before": queries[plan.order[i - 1]], "attribute": name, "git_and_reused_and_fresh_outcome": g, "pass": pass}));
                 }
+                continue;
+            }
+            if x == f && glued_starstar {
+                ctx.count("reuse_git_difference_not_judged_starstar_glued_to_text");
                 continue;
             }
             let mut w = witness_base.clone();
@@ -1215,10 +1273,11 @@ pub fn run(ctx: &mut Ctx) {
          queries in random order with repeats through ONE Outcome: gix_attributes::Search with initialize()-per-path or reset()-per-path (all plans), gix_worktree Stack \
          (1..2 selections and none; also from the index), judged per path x name against git check-attr (its answer for all names, for some selections the call with \
          exactly the selected names, `-a` or the specified part of the all-names answer without selection) and against a fresh Outcome; a hand-written worktree asks every \
-         ordered pair of its 11 paths for every selection of 1 and 2 of 10 names. \
+         ordered pair of its 11 paths for every selection of 1 and 2 of 10 names. Stack: the re-used Outcome is created after the first at_entry(), one more is \
+         created before it and must agree with it (a hand-written worktree re-defines `binary` in the root .gitattributes without any new attribute name). \
          distinct there = (api, size of selection, git state kind, search stopped early, selection has macro, has unknown name, first of sequence, icase)",
     );
-    ctx.assume("attribute values are not the words set/unset/unspecified; no system/XDG attribute files (GIT_ATTR_NOSYSTEM=1, isolated open options); no --cached comparison when a tracked .gitattributes starts with a BOM (git strips it only when reading from disk)");
+    ctx.assume("attribute values are not the words set/unset/unspecified; no system/XDG attribute files (GIT_ATTR_NOSYSTEM=1, isolated open options); oracle R: no verdict from a difference to git that a fresh Outcome shares when an attribute file has `**` glued to other pattern text (git cuts the wildcard-free prefix off and then takes `**` as a leading one: gix-glob deviation known under C37); no --cached comparison when a tracked .gitattributes starts with a BOM (git strips it only when reading from disk)");
     ctx.cases("directed", 1, |ctx, _r| {
         // every known deviation class in a hand-written worktree, so that each is reported by every run
         let files: Vec<String> = ["p.x", "d/q.y", "d/q.z", "d/r.w", "d/r.v"].iter().map(|s| s.to_string()).collect();
@@ -1282,6 +1341,24 @@ pub fn run(ctx: &mut Ctx) {
                 }
                 ctx.count_n("directed_reuse_ordered_pairs_of_paths", (n * n) as u64);
                 check_reuse(ctx, &sc, &queries, &plans, Vec::new(), true);
+            }
+            Err(e) => ctx.inconclusive(&format!("scenario setup failed: {e}")),
+        }
+    });
+    ctx.cases("directed-early-outcome", 1, |ctx, _r| {
+        // the root .gitattributes re-defines a macro and brings no attribute name that the built-in `[attr]binary -diff -merge -text`
+        // has not brought already: an Outcome created before the file was read keeps the old definition
+        let files: Vec<String> = ["x.bin", "y.txt"].iter().map(|s| s.to_string()).collect();
+        let attr_files: Vec<(String, Vec<u8>)> = vec![(".gitattributes".into(), b"[attr]binary -diff\n*.bin binary\n".to_vec())];
+        match materialize(ctx, files.clone(), Vec::new(), attr_files, false) {
+            Ok(sc) => {
+                ctx.count("directed_worktrees");
+                let order = vec![1, 0, 1, 0, 0];
+                let mut plans = vec![Plan { selection: None, order: order.clone(), reset_only: false, via_stack: true, git_exact: false }];
+                for sel in [vec!["merge"], vec!["text", "binary"], vec!["diff"]] {
+                    plans.push(Plan { selection: Some(sel.iter().map(|s| s.to_string()).collect()), order: order.clone(), reset_only: false, via_stack: true, git_exact: true });
+                }
+                check_reuse(ctx, &sc, &files, &plans, Vec::new(), true);
             }
             Err(e) => ctx.inconclusive(&format!("scenario setup failed: {e}")),
         }
